@@ -201,6 +201,93 @@ Proof.
 Qed.
 End NoDeref.
 
+(* ---------- with or without dereferencing ---------- *)
+Lemma resolve_external_lstat fs : forall hops p abs r,
+  resolve_external hops fs p = Some (abs, r) -> lstat fs (comps_of abs) = Ok r /\ is_link r = false.
+Proof.
+  induction hops as [|h IH]; intros p abs r H; [discriminate|]. cbn [resolve_external] in H.
+  destruct (lstat fs p) as [n|]; [|discriminate]. destruct n as [| | t |]; try discriminate.
+  set (abs0 := if is_rooted t then t else fjoin (join_abs (removelast p)) t) in *.
+  destruct (lstat fs (comps_of abs0)) as [n1|] eqn:E; [|discriminate].
+  destruct n1 as [d pm mt | pm mt ks | t1 | k]; try (injection H as <- <-; split; [exact E|reflexivity]).
+  now apply IH in H.
+Qed.
+
+Section AnyDeref.
+Variable fs : node.
+Variable opts : popts.
+Variable rules : option (list rule).
+Variable root : list str.
+
+Definition good2 (e : pentry) : Prop :=
+  (pe_type e = ty_reg -> exists ap top' rel pm mt, lstat fs ap = Ok top' /\ get top' rel = Some (File (pe_body e) pm mt)) /\
+  (pe_type e = ty_sym -> exists p, valid_symlink (o_allow opts) (join_abs root) (join_abs p) (pe_link e) = true).
+
+Definition all_good2 (a : acc) : Prop := forall e, In e (fst (fst a)) -> good2 e.
+
+Lemma emit_good2 a e : all_good2 a -> good2 e -> all_good2 (emit a e).
+Proof.
+  destruct a as [[es files] size]. unfold all_good2, emit. cbn [fst]. intros H He x [<-|Hx]; auto.
+Qed.
+
+Lemma pack_node_good2 : forall fuel src dst chain p ap top' relp n a,
+  lstat fs ap = Ok top' -> get top' relp = Some n -> all_good2 a ->
+  match pack_node fs opts rules root fuel src dst chain p n a with
+  | inl a' => all_good2 a'
+  | inr _ => True
+  end.
+Proof.
+  induction fuel as [|fuel IH]; intros src dst chain p ap top' relp n a Hl Hg Ha; [exact I|].
+  cbn [pack_node].
+  assert (Hkids : forall pm mt ks names a0, n = Dir pm mt ks -> all_good2 a0 ->
+    match fold_left (fun (r : acc + packres) name =>
+             match r with
+             | inr e => inr e
+             | inl a1 => match kid name ks with
+                         | Some c => pack_node fs opts rules root fuel src dst chain (p ++ [name]) c a1
+                         | None => inl a1
+                         end
+             end) names (inl a0) with
+    | inl a' => all_good2 a' | inr _ => True end).
+  { intros pm mt ks names. induction names as [|nm names IHn]; intros a0 H0 Ha0; [exact Ha0|].
+    cbn [fold_left]. destruct (kid nm ks) as [c|] eqn:Ek; [|now apply IHn].
+    assert (Hgc : get top' (relp ++ [nm]) = Some c).
+    { rewrite get_app, Hg, H0. cbn. now rewrite Ek. }
+    pose proof (IH src dst chain (p ++ [nm]) ap top' (relp ++ [nm]) c a0 Hl Hgc Ha0) as Hc.
+    destruct (pack_node fs opts rules root fuel src dst chain (p ++ [nm]) c a0) as [a1|e]; [now apply IHn|].
+    clear. induction names as [|x names IHx]; cbn [fold_left]; [exact I|exact IHx]. }
+  assert (Hwk : forall a0, all_good2 a0 ->
+    match (match n with
+           | Dir _ _ ks => fold_left (fun (r : acc + packres) name =>
+               match r with
+               | inr e => inr e
+               | inl a1 => match kid name ks with
+                           | Some c => pack_node fs opts rules root fuel src dst chain (p ++ [name]) c a1
+                           | None => inl a1
+                           end
+               end) (readdir n) (inl a0)
+           | _ => inl a0 end) with inl a' => all_good2 a' | inr _ => True end).
+  { intros a0 Ha0. destruct n as [| pm mt ks | |] eqn:En; try exact Ha0. now apply (Hkids pm mt ks). }
+  destruct (match strip_prefix src p with Some s => s | None => [] end) as [|s0 sub1]; [now apply Hwk|].
+  destruct (fst (excl rules (join_rel (s0 :: sub1)))); [now apply Hwk|].
+  destruct (if is_dir n then excl rules (join_rel (s0 :: sub1) ++ [slash]) else (false, false)) as [e2 d2].
+  destruct e2; [destruct d2; [exact Ha|now apply Hwk]|].
+  destruct n as [d pm mt | pm mt ks | t | k].
+  - apply emit_good2; [exact Ha|]. split; cbn; [intros _; exists ap, top', relp, pm, mt; auto|discriminate].
+  - apply (Hwk (emit a _)). apply emit_good2; [exact Ha|]. split; cbn; discriminate.
+  - destruct (valid_symlink _ _ _ _) eqn:Ev.
+    + apply emit_good2; [exact Ha|]. split; cbn; [discriminate|intros _; eauto].
+    + destruct (negb (o_deref opts)); [exact I|].
+      destruct (resolve_external max_links fs p) as [[abs r]|] eqn:Er; [|exact I].
+      destruct (resolve_external_lstat fs _ _ _ _ Er) as [Hlr _].
+      destruct r as [d pm mt | pm mt ks | t1 | k]; try exact Ha.
+      * apply emit_good2; [exact Ha|]. split; cbn; [intros _; exists (comps_of abs), (File d pm mt), [], pm, mt; auto|discriminate].
+      * destruct (existsb (str_eqb abs) chain); [exact I|].
+        apply (IH (comps_of abs) (dst ++ s0 :: sub1) (chain ++ [abs]) (comps_of abs) (comps_of abs) (Dir pm mt ks) [] (Dir pm mt ks) a Hlr eq_refl Ha).
+  - exact Ha.
+Qed.
+End AnyDeref.
+
 Lemma pack_node_err_not_ok fs opts rules root fuel src dst chain p n a r :
   pack_node fs opts rules root fuel src dst chain p n a = inr r -> not_ok r.
 Proof.
@@ -231,5 +318,31 @@ Proof.
   destruct (pack_node fs opts rules (comps_of abs) fuel (comps_of abs) (comps_of abs) [abs] (comps_of abs) rn ([], [], 0%N))
     as [[[es0 files0] size0]|e] eqn:Ep; [|intros [= -> _]; now apply pack_node_err_not_ok in Ep].
   intros [= <- <- <- _]. exists (comps_of abs), rn. split; [exact El|].
+  intros e He. apply H. cbn. now apply in_rev.
+Qed.
+
+(* With or without dereferencing: every regular-file entry carries the content of a regular file
+   that exists in the file system (at or below something Lstat reaches: the source directory, or
+   the end of an external link's chain), and every entry stored as a link passed the containment
+   decision against the source directory (lexically inside, or allow-listed): an out-of-tree link
+   is never stored as a link unless its target is allow-listed. *)
+Theorem pack_entries_accounted fuel fs opts flags cwd src es files size fl :
+  pack fuel fs opts flags cwd src = (PackOk es files size, fl) ->
+  exists root,
+    forall e, In e es ->
+      (pe_type e = ty_reg -> exists ap top' rel pm mt, lstat fs ap = Ok top' /\ get top' rel = Some (File (pe_body e) pm mt)) /\
+      (pe_type e = ty_sym -> exists p, valid_symlink (o_allow opts) (join_abs root) (join_abs p) (pe_link e) = true).
+Proof.
+  unfold pack.
+  destruct (walk max_links fs false (start_of cwd src) (split_on slash src)) as [ph|]; [|discriminate].
+  destruct (get fs ph) as [n0|]; [|discriminate].
+  match goal with |- context [let '(r, f) := ?X in _] => destruct X as [rules flags'] end.
+  set (abs := if is_rooted _ then _ else _).
+  destruct (lstat fs (comps_of abs)) as [rn|] eqn:El; [|discriminate].
+  pose proof (pack_node_good2 fs opts rules (comps_of abs) fuel (comps_of abs) (comps_of abs) [abs] (comps_of abs) (comps_of abs) rn [] rn
+                ([], [], 0%N) El eq_refl (fun e (H : In e []) => match H with end)) as H.
+  destruct (pack_node fs opts rules (comps_of abs) fuel (comps_of abs) (comps_of abs) [abs] (comps_of abs) rn ([], [], 0%N))
+    as [[[es0 files0] size0]|e] eqn:Ep; [|intros [= -> _]; now apply pack_node_err_not_ok in Ep].
+  intros [= <- <- <- _]. exists (comps_of abs).
   intros e He. apply H. cbn. now apply in_rev.
 Qed.
